@@ -115,6 +115,19 @@ def issue_perms(cert: dict):
     return ("explicit", s)
 
 
+def budget_covers(issuer: dict, need, wants_all) -> bool:
+    """Every needed PSID (and 'all', if asked for) is covered by an issuer certIssuePermissions entry whose own chain-length
+    budget is not exhausted (minChainLength >= 1): an entry with budget 0 authorises nothing any more."""
+    live = [p for p in issuer["toBeSigned"].get("certIssuePermissions", []) if p["minChainLength"] >= 1]
+    live_all = any(p["subjectPermissions"][0] == "all" for p in live)
+    if wants_all:
+        return live_all
+    if live_all:
+        return True
+    covered = {e["psid"] for p in live if p["subjectPermissions"][0] == "explicit" for e in p["subjectPermissions"][1]}
+    return set(need) <= covered
+
+
 def needed_perms(cert: dict):
     tbs = cert["toBeSigned"]
     need = {e["psid"] for e in tbs.get("appPermissions", [])}
@@ -181,6 +194,9 @@ def check_store(lib, configured_roots):
             if not need <= allowed:
                 memo[key] = "permissions %s not contained in issuer's %s" % (sorted(need - allowed), sorted(allowed))
                 return memo[key]
+        if (need or wants_all) and not budget_covers(issuer, need, wants_all):
+            memo[key] = "permissions %s covered only by issuer entries whose chain length budget is exhausted" % sorted(need)
+            return memo[key]
         memo[key] = True
         return True
 
